@@ -50,6 +50,11 @@ Struct == StructWhy(Ev) = <<>> /\ (l = 1 /\ S.cover => CoverWhy = <<>>)
 AllowedEv(e) == Allowed(e.d, e.k, e.at, F(e.f, e.v))
 InvWhy(e) ==
   IF e.o \notin AllowedEv(e) THEN <<"inv", <<"OutcomeAllowed">>, e.o, e.x, AllowedEv(e)>>
+  \* the host frames written: a cancel ACK exactly after a command whose response timed out (the operations of
+  \* the rcs956 write ACK frames of their own after ResetMode: not judged)
+  ELSE IF e.at > 0 /\ (e.k \notin OpKinds \/ e.d # "rcs956")
+          /\ e.cancel # CancelAck(e.d, F(e.f, e.v))
+       THEN <<"inv", <<"CancelAck">>, e.o, e.x, {IF CancelAck(e.d, F(e.f, e.v)) THEN "ack-written" ELSE "no-ack-written"}>>
   ELSE IF e.k \notin OpKinds /\ Benign(e.d, e.k, e.at, F(e.f, e.v)) /\ ~e.same
        THEN <<"inv", <<"DataIntact">>, e.o, e.x, {"same"}>>
   \* an operation that reports a target reports the documented one (bit rate and every attribute), fault or not
